@@ -27,14 +27,20 @@ from bacpypes.service.device import WhoIsIAmServices
 from bacpypes.service.object import ReadWritePropertyServices, ReadWritePropertyMultipleServices
 from bacpypes.local.device import LocalDeviceObject
 from bacpypes.vlan import Node
-from bacpypes.primitivedata import TagList, Tag
-from bacpypes.constructeddata import Any
+from bacpypes.primitivedata import (TagList, Tag, Atomic, Null, Boolean, Unsigned, Integer, Real, Double, OctetString,
+                                    CharacterString, BitString, Enumerated, Date, Time, ObjectIdentifier)
+from bacpypes.constructeddata import (Any, AnyAtomic, Array, List, Choice, Sequence, SequenceOfAny, ArrayOf, ListOf,
+                                      _sequence_of_classes, _list_of_classes, _array_of_classes)
+from bacpypes.basetypes import BinaryPV, TimeStamp, OptionalCharacterString
+from bacpypes.local.object import CurrentPropertyListMixIn
+from bacpypes import object as _object
 from bacpypes.apdu import (WritePropertyRequest, ReadPropertyRequest, ReadPropertyACK, SimpleAckPDU,
                            ReadPropertyMultipleRequest, ReadPropertyMultipleACK, ReadAccessSpecification,
                            PropertyReference, Error, RejectPDU, AbortPDU)
 
 from bv.engine import vclock
 from bv.engine.ctlnet import Wire, CtlNetwork
+from bv.refs import propref as R
 
 VENDOR = 999
 DEVICE_INSTANCE = 2
@@ -271,12 +277,6 @@ def classify(resp):
 # ====================================================================================================
 # Typed items (what bv.refs.propref works on) from live bacpypes values
 # ====================================================================================================
-from bacpypes.primitivedata import (Atomic, Null, Boolean, Unsigned, Integer, Real, Double, OctetString,  # noqa: E402
-                                    CharacterString, BitString, Enumerated, Date, Time, ObjectIdentifier)
-from bacpypes.constructeddata import (AnyAtomic, Array, List, Choice, Sequence, SequenceOfAny,  # noqa: E402
-                                      _sequence_of_classes, _list_of_classes, _array_of_classes)
-from bacpypes import object as _object  # noqa: E402
-from bv.refs import propref as R  # noqa: E402
 
 
 def kind_of_octets(octets, typename):
@@ -569,10 +569,6 @@ def writable_twin(cls):
 # ====================================================================================================
 # Objects of the history part
 # ====================================================================================================
-from bacpypes.basetypes import (BinaryPV, TimeStamp, OptionalCharacterString, EngineeringUnits, DeviceStatus,  # noqa: E402
-                                StatusFlags, AddressBinding)
-from bacpypes.constructeddata import ArrayOf, ListOf  # noqa: E402
-from bacpypes.local.object import CurrentPropertyListMixIn  # noqa: E402
 
 
 @_object.register_object_type(vendor_id=VENDOR)
